@@ -10,6 +10,8 @@ All theorems quantify over operation lists of any length, each operation carryin
 `Op.kill` (a process dying behind the manager's back) is an environment event, not a fault of a call; it is part
 of the histories everywhere except in `running_has_process`, where the clause is about what the manager records.
 
+The registry file is a second observable (`Sys`, `SOp.reload`, section 8): it changes only where the code saves.
+
 Two clauses are false of the code in full strength (known finding K-s-orphan: a `start` whose RPC query fails
 after the process was launched records nothing about the live process): the full statements are kept as `def`s,
 refuted on concrete histories, and proved under the named hypothesis "no unrecorded live process".
@@ -185,8 +187,9 @@ theorem addLoop_reg (k num : Nat) (np mp rp : Option Nat) (metrics : Bool) (ver 
       · exact a1 t h
       · exact a2 t h
 
-theorem addNode_reg (w : World) (fx : Fx) (count : Nat) (np mp rp : Option (Nat × Nat)) (metrics : Bool) (ver : Nat) :
-    ∃ new, (addNode w fx count np mp rp metrics ver).1.reg = w.reg ++ new ∧ ∀ t ∈ new, t.status = .added := by
+theorem addNode_reg (w : World) (fx : Fx) (file : List Svc) (count : Nat) (np mp rp : Option (Nat × Nat))
+    (metrics : Bool) (ver : Nat) :
+    ∃ new, (addNode w fx file count np mp rp metrics ver).1.reg = w.reg ++ new ∧ ∀ t ∈ new, t.status = .added := by
   unfold addNode
   dsimp only
   have hnil : ∃ new, w.reg = w.reg ++ new ∧ ∀ t ∈ new, t.status = Status.added := ⟨[], by simp, fun _ h => by cases h⟩
@@ -197,7 +200,7 @@ theorem addNode_reg (w : World) (fx : Fx) (count : Nat) (np mp rp : Option (Nat 
     · split
       · exact hnil
       · have := addLoop_reg count (startNumber w.reg) (np.map (·.1)) (mp.map (·.1)) (rp.map (·.1)) metrics ver
-          ⟨w, fx, [], [], false⟩
+          ⟨w, fx, [], [], false, file⟩
         split
         · exact this
         · split <;> exact this
@@ -231,7 +234,7 @@ theorem failure_never_marks_running (w : World) (op : Op) (hf : (result w op).fa
   cases op with
   | add count np mp rp metrics ver faults =>
     simp only [step, exec] at hj
-    obtain ⟨new, hreg, hnew⟩ := addNode_reg w ⟨faults, 0⟩ count np mp rp metrics ver
+    obtain ⟨new, hreg, hnew⟩ := addNode_reg w ⟨faults, 0⟩ [] count np mp rp metrics ver
     rw [hreg] at hj
     rcases Nat.lt_or_ge j w.reg.length with hlt | hge
     · rw [List.getElem?_append_left hlt] at hj; exact ⟨s', hj, hr⟩
@@ -331,6 +334,215 @@ theorem save_load_identity_run (ops : List Op) :
     decode (encode (run World.init ops).reg) = some (run World.init ops).reg :=
   decode_encode _
 
+/-! ## 8. The registry file: saved after each install; names stay unique across a reload -/
+
+/-- **`add_node` saves after every completed install**, at every return point and under any fault list: either the
+call recorded and installed nothing (file untouched), or the file it leaves is exactly the in-memory registry and
+every service definition the call created is recorded in that file. `file` is the file's content before the call. -/
+theorem saved_after_each_install (w : World) (fx : Fx) (file : List Svc) (count : Nat) (np mp rp : Option (Nat × Nat))
+    (metrics : Bool) (ver : Nat) :
+    let r := addNode w fx file count np mp rp metrics ver
+    (r.1.reg = w.reg ∧ r.2.2.2 = file ∧ ∀ n, r.1.os.isInstalled n = w.os.isInstalled n) ∨
+    (r.2.2.2 = r.1.reg ∧
+      ∀ n, r.1.os.isInstalled n = true → w.os.isInstalled n = true ∨ ∃ s ∈ r.2.2.2, s.number = n) := by
+  intro r
+  unfold r addNode
+  dsimp only
+  split
+  · left; exact ⟨rfl, rfl, fun _ => rfl⟩
+  · split
+    · left; exact ⟨rfl, rfl, fun _ => rfl⟩
+    · split
+      · left; exact ⟨rfl, rfl, fun _ => rfl⟩
+      · have h0 : FileRel ⟨w, fx, [], [], false, file⟩ ⟨w, fx, [], [], false, file⟩ :=
+          Or.inl ⟨rfl, rfl, fun _ => rfl⟩
+        have h := addLoop_fileRel count (startNumber w.reg) (np.map (·.1)) (mp.map (·.1)) (rp.map (·.1)) metrics ver
+          _ _ h0
+        have h' : (_ ∧ _ ∧ _) ∨ (_ ∧ _) := h
+        split
+        · rcases h' with ⟨h1, h2, h3⟩ | ⟨h1, h2⟩
+          · left; exact ⟨h1, h2, h3⟩
+          · right; exact ⟨h1, fun n hn => by rw [h1]; exact h2 n hn⟩
+        · split
+          · rcases h' with ⟨h1, h2, h3⟩ | ⟨h1, h2⟩
+            · left; exact ⟨h1, h2, h3⟩
+            · right; exact ⟨h1, fun n hn => by rw [h1]; exact h2 n hn⟩
+          · rcases h' with ⟨h1, h2, h3⟩ | ⟨h1, h2⟩
+            · left; exact ⟨h1, h2, h3⟩
+            · right; exact ⟨h1, fun n hn => by rw [h1]; exact h2 n hn⟩
+
+/-- Every entry the call recorded in memory is in the file it leaves. -/
+theorem recorded_is_saved (w : World) (fx : Fx) (file : List Svc) (count : Nat) (np mp rp : Option (Nat × Nat))
+    (metrics : Bool) (ver : Nat) (s : Svc)
+    (hs : s ∈ (addNode w fx file count np mp rp metrics ver).1.reg) (hnew : s ∉ w.reg) :
+    s ∈ (addNode w fx file count np mp rp metrics ver).2.2.2 := by
+  rcases saved_after_each_install w fx file count np mp rp metrics ver with ⟨h1, _, _⟩ | ⟨h1, _⟩
+  · rw [h1] at hs; exact absurd hs hnew
+  · rw [h1]; exact hs
+
+theorem addNode_numbers (w : World) (fx : Fx) (file : List Svc) (count : Nat) (np mp rp : Option (Nat × Nat))
+    (metrics : Bool) (ver : Nat) (hn : (w.reg.map (·.number)).Nodup) :
+    ((addNode w fx file count np mp rp metrics ver).1.reg.map (·.number)).Nodup ∧
+    (w.reg.map (·.number)) <+: ((addNode w fx file count np mp rp metrics ver).1.reg.map (·.number)) := by
+  unfold addNode
+  dsimp only
+  split
+  · exact ⟨hn, List.prefix_refl _⟩
+  · split
+    · exact ⟨hn, List.prefix_refl _⟩
+    · split
+      · exact ⟨hn, List.prefix_refl _⟩
+      · have := addLoop_numbers count (startNumber w.reg) (np.map (·.1)) (mp.map (·.1)) (rp.map (·.1)) metrics ver
+          ⟨w, fx, [], [], false, file⟩ (fresh_maxNumber w.reg) hn
+        split
+        · exact this
+        · split <;> exact this
+
+theorem onSvc_numbers (w : World) (i : Nat) (faults : List Bool) (f : Svc → OS → Fx → Svc × OS × Fx × Res)
+    (hT : ∀ s os fx, (f s os fx).1.number = s.number) :
+    (onSvc w i faults f).1.reg.map (·.number) = w.reg.map (·.number) := by
+  cases hget : w.reg[i]? with
+  | none => simp [onSvc, hget]
+  | some s =>
+    rw [onSvc_some faults f hget]
+    exact map_number_set _ _ _ _ hget (hT s w.os ⟨faults, 0⟩)
+
+/-- Every operation other than `add` leaves the list of recorded service numbers as it is. -/
+theorem exec_numbers (w : World) (op : Op) :
+    (∃ c np mp rp m v f, op = .add c np mp rp m v f) ∨ (exec w op).1.reg.map (·.number) = w.reg.map (·.number) := by
+  cases op with
+  | add c np mp rp m v f => left; exact ⟨c, np, mp, rp, m, v, f, rfl⟩
+  | start i ct faults => right; exact onSvc_numbers w i faults _ (fun s os fx => (svcStart_trans s os fx ct).num)
+  | stop i faults => right; exact onSvc_numbers w i faults _ (fun s os fx => (svcStop_trans s os fx).num)
+  | remove i keep faults => right; exact onSvc_numbers w i faults _ (fun s os fx => (svcRemove_trans s os fx keep).num)
+  | upgrade i force start ver ct faults =>
+    right; exact onSvc_numbers w i faults _ (fun s os fx => (svcUpgrade_trans s os fx force start ver ct).num)
+  | refresh =>
+    right
+    simp only [exec, List.map_map]
+    congr 1
+    funext s; exact svcRefresh_number _ _
+  | kill i => right; simp only [exec]; split <;> rfl
+  | flaky i on => right; simp only [exec]; split <;> rfl
+  | saveload => right; simp only [exec, decode_encode]
+
+/-- Recorded numbers are pairwise distinct and the file's numbers are an initial segment of them. -/
+def SNum (s : Sys) : Prop :=
+  (s.w.reg.map (·.number)).Nodup ∧ (s.file.map (·.number)) <+: (s.w.reg.map (·.number))
+
+theorem stepS_nonadd (s : Sys) (o : Op) (hna : ∀ c np mp rp m v f, o ≠ .add c np mp rp m v f) :
+    stepS s (.op o) =
+      ⟨(exec s.w o).1, if callerSaves s.w o (exec s.w o).2.1 then (exec s.w o).1.reg else s.file⟩ := by
+  cases o <;> first | (exfalso; exact hna _ _ _ _ _ _ _ rfl) | rfl
+
+theorem stepS_snum (s : Sys) (sop : SOp) (h : SNum s) : SNum (stepS s sop) := by
+  obtain ⟨hn, hp⟩ := h
+  cases sop with
+  | reload =>
+    simp only [stepS, execS]
+    exact ⟨hn.sublist hp.sublist, List.prefix_refl _⟩
+  | op o =>
+    rcases exec_numbers s.w o with ⟨c, np, mp, rp, m, v, f, rfl⟩ | he
+    · simp only [stepS, execS]
+      obtain ⟨g1, g2⟩ := addNode_numbers s.w ⟨f, 0⟩ s.file c np mp rp m v hn
+      refine ⟨g1, ?_⟩
+      dsimp only
+      split
+      · rcases saved_after_each_install s.w ⟨f, 0⟩ s.file c np mp rp m v with ⟨_, h2, _⟩ | ⟨h2, _⟩
+        · rw [h2]; exact hp.trans g2
+        · rw [h2]; exact List.prefix_refl _
+      · exact List.prefix_refl _
+    · by_cases hadd : ∃ c np mp rp m v f, o = .add c np mp rp m v f
+      · obtain ⟨c, np, mp, rp, m, v, f, rfl⟩ := hadd
+        simp only [stepS, execS]
+        obtain ⟨g1, g2⟩ := addNode_numbers s.w ⟨f, 0⟩ s.file c np mp rp m v hn
+        refine ⟨g1, ?_⟩
+        dsimp only
+        split
+        · rcases saved_after_each_install s.w ⟨f, 0⟩ s.file c np mp rp m v with ⟨_, h2, _⟩ | ⟨h2, _⟩
+          · rw [h2]; exact hp.trans g2
+          · rw [h2]; exact List.prefix_refl _
+        · exact List.prefix_refl _
+      · have hna : ∀ c np mp rp m v f, o ≠ .add c np mp rp m v f :=
+          fun c np mp rp m v f h => hadd ⟨c, np, mp, rp, m, v, f, h⟩
+        rw [stepS_nonadd s o hna]
+        refine ⟨by show ((exec s.w o).1.reg.map (·.number)).Nodup; rw [he]; exact hn, ?_⟩
+        show (List.map (·.number) (if callerSaves s.w o (exec s.w o).2.1 then (exec s.w o).1.reg else s.file)) <+:
+          (exec s.w o).1.reg.map (·.number)
+        split
+        · exact List.prefix_refl _
+        · rw [he]; exact hp
+
+/-- **Names and data directories stay unique across reloads**: histories may at any point drop the in-memory
+registry and continue from the registry file (`reload`), e.g. after an `add` that returned early. -/
+theorem names_dirs_unique_reload (ops : List SOp) :
+    ((runS Sys.init ops).w.reg.map (·.number)).Nodup ∧ ((runS Sys.init ops).file.map (·.number)).Nodup := by
+  have h : SNum (runS Sys.init ops) := by
+    have : ∀ (s : Sys), SNum s → SNum (runS s ops) := by
+      induction ops with
+      | nil => exact fun _ h => h
+      | cons op r ih => exact fun s h => ih _ (stepS_snum s op h)
+    exact this _ ⟨List.nodup_nil, List.prefix_refl _⟩
+  exact ⟨h.1, h.1.sublist h.2.sublist⟩
+
+/-- Every service definition the OS holds is recorded in the registry file. -/
+def SInst (s : Sys) : Prop := ∀ n, s.w.os.isInstalled n = true → n ∈ s.file.map (·.number)
+
+theorem stepS_sinst (s : Sys) (sop : SOp) (hnum : SNum s) (h : SInst s) : SInst (stepS s sop) := by
+  obtain ⟨hn, hp⟩ := hnum
+  cases sop with
+  | reload => simp only [stepS, execS]; exact h
+  | op o =>
+    by_cases hadd : ∃ c np mp rp m v f, o = .add c np mp rp m v f
+    · obtain ⟨c, np, mp, rp, m, v, f, rfl⟩ := hadd
+      obtain ⟨_, g2⟩ := addNode_numbers s.w ⟨f, 0⟩ s.file c np mp rp m v hn
+      simp only [stepS, execS]
+      intro n hinst
+      dsimp only at hinst ⊢
+      rcases saved_after_each_install s.w ⟨f, 0⟩ s.file c np mp rp m v with ⟨h1, h2, h3⟩ | ⟨h2, h3⟩
+      · rw [h3 n] at hinst
+        have hin := h n hinst
+        split
+        · rw [h2]; exact hin
+        · rw [h1]; exact hp.subset hin
+      · have hmem : n ∈ (addNode s.w ⟨f, 0⟩ s.file c np mp rp m v).1.reg.map (·.number) := by
+          rcases h3 n hinst with h4 | ⟨t, ht, htn⟩
+          · exact g2.subset (hp.subset (h n h4))
+          · rw [h2] at ht; exact List.mem_map.mpr ⟨t, ht, htn⟩
+        split
+        · rw [h2]; exact hmem
+        · exact hmem
+    · have hna : ∀ c np mp rp m v f, o ≠ .add c np mp rp m v f :=
+        fun c np mp rp m v f h => hadd ⟨c, np, mp, rp, m, v, f, h⟩
+      have he : (exec s.w o).1.reg.map (·.number) = s.w.reg.map (·.number) := by
+        rcases exec_numbers s.w o with ⟨c, np, mp, rp, m, v, f, h⟩ | he
+        · exact absurd h (hna c np mp rp m v f)
+        · exact he
+      rw [stepS_nonadd s o hna]
+      intro n hinst
+      have hin := h n (exec_instSub s.w o hna n hinst)
+      show n ∈ List.map (·.number) (if callerSaves s.w o (exec s.w o).2.1 then (exec s.w o).1.reg else s.file)
+      split
+      · rw [he]; exact hp.subset hin
+      · exact hin
+
+theorem runS_inv (ops : List SOp) (s : Sys) (h : SNum s ∧ SInst s) : SNum (runS s ops) ∧ SInst (runS s ops) := by
+  induction ops generalizing s with
+  | nil => exact h
+  | cons op r ih => exact ih (stepS s op) (And.intro (stepS_snum s op h.1) (stepS_sinst s op h.1 h.2))
+
+/-- **Every installed service is recorded in the registry file**, after every step of every history (any faults,
+kills, reloads): the next `antctl` invocation, which starts from the file, knows every service definition the OS
+holds — in particular the ones created by an `add` that returned early. -/
+theorem installed_recorded_in_file (ops : List SOp) (n : Nat)
+    (hi : (runS Sys.init ops).w.os.isInstalled n = true) : ∃ t ∈ (runS Sys.init ops).file, t.number = n := by
+  have h0 : SNum Sys.init ∧ SInst Sys.init := by
+    refine ⟨⟨List.nodup_nil, List.prefix_refl _⟩, ?_⟩
+    intro m hm
+    simp [Sys.init, World.init, OS.init, OS.isInstalled] at hm
+  obtain ⟨t, ht, htn⟩ := List.mem_map.mp ((runS_inv ops Sys.init h0).2 n hi)
+  exact ⟨t, ht, htn⟩
+
 /-! ## Non-vacuity -/
 
 -- add two services with the first install failing, then add one more: numbers 2 and 3 (the F-s history)
@@ -350,6 +562,15 @@ example : (result (run World.init [.add 1 none none none false 1 []]) (.start 0 
 -- a requested port recorded by another service
 example : (8000 : Nat) ∈ allPorts (run World.init [.add 1 (some (8000, 8000)) none none false 1 []]).reg := by decide
 
+-- the registry file: an add that returns early (second port allocation fails) has saved the service it installed;
+-- after a reload the next add continues with number 2
+example : (runS Sys.init [.op (.add 3 none none none false 1 [false, false, true])]).file.map (·.number) = [1] := by decide
+example : (runS Sys.init [.op (.add 3 none none none false 1 [false, false, true]), .reload,
+    .op (.add 1 none none none false 1 [])]).w.reg.map (·.number) = [1, 2] := by decide
+-- a failed start is not saved by its caller; a reload then drops nothing that matters
+example : (runS Sys.init [.op (.add 1 none none none false 1 []), .op (.start 0 false []), .reload]).w.reg.map (·.status)
+    = [.running] := by decide
+
 end SafeNet.Props.C19
 
 #print axioms SafeNet.Props.C19.running_has_process
@@ -365,3 +586,7 @@ end SafeNet.Props.C19
 #print axioms SafeNet.Props.C19.requested_port_refused
 #print axioms SafeNet.Props.C19.save_load_identity
 #print axioms SafeNet.Props.C19.save_load_identity_run
+#print axioms SafeNet.Props.C19.saved_after_each_install
+#print axioms SafeNet.Props.C19.recorded_is_saved
+#print axioms SafeNet.Props.C19.names_dirs_unique_reload
+#print axioms SafeNet.Props.C19.installed_recorded_in_file
